@@ -138,6 +138,10 @@ func (P *Program) VerifyFunc(fn *ssa.Function) (res *FuncResult) {
 		locs = c.assignLocs(penv(fr.old), con)
 	}
 
+	if fn.Synthetic == "package initializer" && fn.Pkg != nil {
+		// the runtime runs a package initializer exactly once: its guard variable is still false
+		c.assumeAlways(not(c.H(st, "G:"+fn.Pkg.Pkg.Path()+".init$guard", "Bool")))
+	}
 	exits := c.execBody(fr, st, "true")
 
 	returns := 0
@@ -524,6 +528,7 @@ type DischargeOpts struct {
 	onlyHeads bool
 	Tier      string
 	TimeoutS  int
+	Short     func(o *Obligation) bool // obligations listed as known findings: a short timeout is enough
 	WorkDir   string
 	Workers   int
 	Keep      bool
@@ -564,7 +569,21 @@ func DischargeAll(results []*FuncResult, want func(*Obligation) bool, opt Discha
 		sub := opt
 		sub.noGroups = true
 		sub.onlyHeads = true
-		DischargeAll(results, func(o *Obligation) bool { return headWant(o) && groupWanted(results, o, want) }, sub)
+		// a group with a member that is a known finding cannot be discharged as a whole: go to the members
+		hasShort := func(head *Obligation) bool {
+			if opt.Short == nil {
+				return false
+			}
+			for _, r := range results {
+				for _, o := range r.Obligations {
+					if !o.GroupHead && o.Group == head.Group && opt.Short(o) {
+						return true
+					}
+				}
+			}
+			return false
+		}
+		DischargeAll(results, func(o *Obligation) bool { return headWant(o) && groupWanted(results, o, want) && !hasShort(o) }, sub)
 		okGroup := map[string]bool{}
 		for _, r := range results {
 			for _, o := range r.Obligations {
@@ -613,6 +632,10 @@ func DischargeAll(results []*FuncResult, want func(*Obligation) bool, opt Discha
 		go func() {
 			defer wg.Done()
 			for j := range ch {
+				opt := opt
+				if opt.Short != nil && opt.Short(j.o) && opt.TimeoutS > 5 {
+					opt.TimeoutS = 5
+				}
 				fname := fmt.Sprintf("%04d_%s.smt2", j.i, safeFile(j.o.Name))
 				path := filepath.Join(opt.WorkDir, fname)
 				_ = os.MkdirAll(opt.WorkDir, 0o755)
@@ -768,6 +791,10 @@ func (c *Ctx) assumeInvariants(st *State) []string {
 	if c.inInv {
 		return nil
 	}
+	if c.fn != nil && c.fn.Synthetic == "package initializer" {
+		// the package initializer establishes the invariants: nothing is assumed while it runs
+		return nil
+	}
 	c.inInv = true
 	defer func() { c.inInv = false }()
 	for _, inv := range c.prog.Invariants {
@@ -789,6 +816,9 @@ func (c *Ctx) checkInvariants(fr *Frame, ex *exitInfo, name string, props []stri
 		return
 	}
 	for i, inv := range c.prog.Invariants {
+		if fr.con != nil && hasStr(fr.con.SkipInv, inv.Label) {
+			continue
+		}
 		env := &Env{c: c, fn: c.fn, st: ex.st, old: ex.st, vars: map[string]*Val{}, fd: fr.fd}
 		g := env.evalTop(inv)
 		if i < len(c.invEntry) && g.Term == c.invEntry[i] {
